@@ -116,6 +116,15 @@ func (group *Group) OnAvPacketFromPsPubSession(pkt *base.AvPacket) {
 func (group *Group) OnPatPmt(b []byte) {
 	group.patpmt = b
 
+	// sessions that are already past their start-up prologue (e.g. attached
+	// across a re-publish of this stream name) would otherwise never see the
+	// PAT/PMT of the new input
+	for session := range group.httptsSubSessionSet {
+		if !session.IsFresh {
+			session.Write(b)
+		}
+	}
+
 	if group.hlsMuxer != nil {
 		group.hlsMuxer.FeedPatPmt(b)
 	}
